@@ -14,6 +14,7 @@ import Driver.Seqs
 import Driver.Heap
 import Driver.Sched
 import Driver.Json
+import Driver.Threads
 /-! One line per component driver. -/
 namespace Driver
 def registry : List (String × Component) := [
@@ -31,6 +32,7 @@ def registry : List (String × Component) := [
   ("seqs", SeqsD.component),
   ("heap", HeapD.component),
   ("sched", SchedD.component),
-  ("json", JsonD.component)
+  ("json", JsonD.component),
+  ("threads", ThreadsD.component)
 ]
 end Driver
